@@ -346,7 +346,7 @@ def build_targets(ctx, tier):
     corp = vlib.run_impl('corpus.load', [None])[0]
     corp = [c for c in corp if 'src' in c]
     lim = os.environ.get('C20_LIMIT')
-    step = 4 if tier == 'thorough' else 16      # quick subset of thorough: every 16th / every 4th corpus program
+    step = 4 if tier == 'thorough' else 32      # quick subset of thorough: every 32nd / every 4th corpus program
     progs = []
     for c in corp[::step]:
         progs.append({'src': c['src'], 'tag': f"{c['file']}:{c['idx']}",
@@ -354,7 +354,7 @@ def build_targets(ctx, tier):
                                  'timer': [fb(x) for x in c['timer']] + [fb(1.5)] * 5,
                                  'inkey': c['inkey']},
                       'kind': 'corpus:' + c.get('expected_result', '?')})
-    gens = [c20gen.gen_program(i) for i in range(40 if tier == 'thorough' else 12)]
+    gens = [c20gen.gen_program(i) for i in range(40 if tier == 'thorough' else 8)]
     for g in gens:
         progs.append({'src': g['src'], 'tag': g['tag'], 'script': GEN_SCRIPT, 'kind': 'generated'})
     if lim:                                     # development aids only; never set by ./check
